@@ -594,6 +594,13 @@ impl Redirect {
 //@extract id=HttpResult file=crux_http/src/protocol.rs item="enum HttpResult"
 //@end
 
+// ASSUMED: the real types derive Clone; a derived clone is a structural copy
+impl Clone for HttpHeader { #[verifier::external_body] fn clone(&self) -> (r: Self) ensures r == *self { unimplemented!() } }
+impl Clone for HttpRequest { #[verifier::external_body] fn clone(&self) -> (r: Self) ensures r == *self { unimplemented!() } }
+impl Clone for HttpResponse { #[verifier::external_body] fn clone(&self) -> (r: Self) ensures r == *self { unimplemented!() } }
+impl Clone for HttpResult { #[verifier::external_body] fn clone(&self) -> (r: Self) ensures r == *self { unimplemented!() } }
+impl Clone for HttpError { #[verifier::external_body] fn clone(&self) -> (r: Self) ensures r == *self { unimplemented!() } }
+
 pub open spec fn header_pairs(h: Seq<HttpHeader>) -> Seq<(Seq<char>, Seq<char>)> {
     h.map(|_i: int, x: HttpHeader| (x.name@, x.value@))
 }
@@ -672,7 +679,7 @@ pub open spec fn header_pairs(h: Seq<HttpHeader>) -> Seq<(Seq<char>, Seq<char>)>
 //@rule X17.pin-async 1 s/Box::pin\(async move \{/pin_block({/
 //@rule X17.await * s/\s*\.await\b//
 //@rule X7.trait-method 1 s/(\w+)\s*\.into_protocol_request\(\)/into_protocol_request(\1)/
-//@rule X6.world 1 s/\.effect_sender\.send\(/.effect_sender.send(Tracked(w), /
+//@rule X6.world * s/\.effect_sender\.send\(/.effect_sender.send(Tracked(w), /
 //@rule X7.into 1 s/Ok\((\w+)\.into\(\)\)/Ok(response_from(\1))/
 //@end
 
